@@ -21,9 +21,14 @@ func NewRng(seed uint64) *Rng { return &Rng{s: seed} }
 
 // Fork derives an independent stream for sequence k (so sequences can be re-run alone).
 func (r *Rng) Fork(k uint64) *Rng {
-	x := NewRng(r.s ^ (0x9e3779b97f4a7c15 * (k + 1)))
-	x.U64()
-	return x
+	// the fork's state is a full splitmix64 OUTPUT of (state + G·(k+1)), not a neighbour of it: a splitmix stream is
+	// the sequence mix(s + G·j), so forks whose states differ by a small multiple of G (as `s ^ G·(k+1)` does for
+	// small seeds) are shifted copies of one stream and the "independent" sequences repeat each other's choices
+	z := r.s + 0x9e3779b97f4a7c15*(k+1)
+	z = (z ^ (z >> 30)) * 0xbf58476d1ce4e5b9
+	z = (z ^ (z >> 27)) * 0x94d049bb133111eb
+	z ^= z >> 31
+	return NewRng(z ^ 0xd1b54a32d192ed03)
 }
 
 func (r *Rng) U64() uint64 {
